@@ -59,12 +59,14 @@ type One struct {
 	ID      uint `gorm:"primaryKey"`
 	Name    string
 	OwnerID *uint
+	Owner   *Owner // back reference: the inverse belongs-to over the same foreign key
 }
 
 type Many struct {
 	ID        uint `gorm:"primaryKey"`
 	Name      string
 	OwnerID   *uint
+	Owner     *Owner         // back reference: the inverse belongs-to over the same foreign key
 	DeletedAt gorm.DeletedAt // soft delete: Unscoped() association calls soft-delete, db.Unscoped() + Unscoped() delete
 }
 
@@ -167,13 +169,14 @@ type relSpec struct {
 	Ref   bool   // the foreign key refers to a unique non-primary column ("Code")
 	Poly  string // polymorphic: the holder_type value that means "owners"
 	ByVal bool   // the relation field is a slice of VALUES ([]T): its elements can be handed back by sub-slice or pointer
+	Back  bool   // the target type declares the inverse belongs-to "Owner" over the same foreign key
 	Join  string // join table (many to many)
 	JoinC string // target column of the join table
 }
 
 var rels = []relSpec{
-	{Name: "One", Kind: hasOne, Table: "ones", Elem: reflect.TypeOf(One{})},
-	{Name: "Many", Kind: hasMany, Table: "manies", Elem: reflect.TypeOf(Many{}), ByVal: true},
+	{Name: "One", Kind: hasOne, Table: "ones", Elem: reflect.TypeOf(One{}), Back: true},
+	{Name: "Many", Kind: hasMany, Table: "manies", Elem: reflect.TypeOf(Many{}), ByVal: true, Back: true},
 	{Name: "Notes", Kind: poly, Table: "notes", Elem: reflect.TypeOf(Note{}), Poly: "owners", ByVal: true},
 	{Name: "Boss", Kind: belongsTo, Table: "bosses", Elem: reflect.TypeOf(Boss{}), PtrFK: true},
 	{Name: "Tags", Kind: m2m, Table: "tags", Elem: reflect.TypeOf(Tag{}), Join: "owner_tags", JoinC: "tag_id"},
@@ -289,10 +292,12 @@ func (c Cfg) String() string {
 
 // Val names one value handed to gorm: a fresh copy of a saved target, or a new unsaved one.
 type Val struct {
-	ID   uint
-	New  string
-	Code string // key of a new string-keyed target
-	Key  uint   // handle of the key of a new composite-keyed target
+	ID     uint
+	New    string
+	Code   string // key of a new string-keyed target
+	Key    uint   // handle of the key of a new composite-keyed target
+	Back   bool   // the value carries its back reference: a saved target is loaded with Preload("Owner")
+	BackID uint   // ... a new target is built with Owner: &<fresh copy of this owner>
 }
 
 func (v Val) String() string {
@@ -304,7 +309,13 @@ func (v Val) String() string {
 			ki, kr := compKey(v.Key)
 			return fmt.Sprintf("new(%s key %d.%d)", v.New, ki, kr)
 		}
+		if v.BackID != 0 {
+			return fmt.Sprintf("new(%s Owner:&o%d)", v.New, v.BackID)
+		}
 		return "new(" + v.New + ")"
+	}
+	if v.Back {
+		return fmt.Sprintf("#%d+Preload(Owner)", v.ID)
 	}
 	return fmt.Sprintf("#%d", v.ID)
 }
@@ -990,11 +1001,23 @@ func (h *hist) fresh(r relSpec, v Val) reflect.Value {
 		if r.Name == "Guild" {
 			p.Elem().FieldByName("Code").SetString(guildCode(v.New))
 		}
+		if v.BackID != 0 { // built like Many{Name: .., Owner: &other}
+			o := &Owner{}
+			h.d.Rec.Pause()
+			err := h.d.First(o, v.BackID).Error
+			h.d.Rec.Resume()
+			if err != nil {
+				panic("harness: load back reference: " + err.Error())
+			}
+			p.Elem().FieldByName("Owner").Set(reflect.ValueOf(o))
+		}
 		return p
 	}
 	h.d.Rec.Pause()
 	var err error
-	if r.Str {
+	if v.Back {
+		err = h.d.Preload("Owner").First(p.Interface(), v.ID).Error
+	} else if r.Str {
 		err = h.d.First(p.Interface(), "code = ?", codeOf(v.ID)).Error
 	} else if r.Comp {
 		ki, kr := compKey(v.ID)
@@ -1668,6 +1691,21 @@ func (h *hist) genStep(rt *rapid.T, allowUnscoped bool) (Step, stepInfo) {
 			}
 		} else {
 			usedBy[v.ID] = o
+		}
+		// a target type with the inverse belongs-to: the value may carry that back reference populated
+		// (read with Preload, or built with Owner: &other) - with FullSaveAssociations the nested
+		// relation is saved by contract, so the back reference would be a second instruction
+		if r.Back && !h.su.Cfg.FullSave && s.Act != "delete" && rapid.IntRange(0, 2).Draw(rt, "backref") == 0 {
+			if v.New != "" {
+				v.BackID = uint(rapid.IntRange(1, h.su.NOwners).Draw(rt, "backOwner"))
+				info.classes = append(info.classes, "val:back-reference/built")
+			} else {
+				v.Back = true
+				info.classes = append(info.classes, "val:back-reference/preloaded")
+				if cls == "val:linked-other" {
+					info.classes = append(info.classes, "val:back-reference/preloaded-points-at-another-owner")
+				}
+			}
 		}
 		info.classes = append(info.classes, cls)
 		if cls == "val:linked-self" || cls == "val:linked-other" {
